@@ -54,3 +54,9 @@ package types
 //@ trusted
 //@ may_panic
 //@ modifies Bank, Other
+
+// ---- C02/C14: parameter validation accepts only reward percentages that are percentages ---------------------
+// (a value above 100 makes the begin-blocker ask the fee collector for more than it holds: the transfer fails, the
+// begin-blocker returns the error and the block cannot be finalized)
+//@ func (p Params) Validate
+//@ ensures err == nil ==> p.OracleRewardPercentage <= 100
